@@ -420,6 +420,42 @@ func run(line string) (out string) {
 			return "modified-input"
 		}
 		return "ok " + describeNLRI(n)
+	case "mpnlri":
+		// mpnlri <afi> <safi> "<ap 0|1> <hex>": the octets as the NLRI field of an MP_UNREACH_NLRI attribute, decoded by the attribute decoder
+		var afi, safi int
+		fmt.Sscan(f[1], &afi)
+		fmt.Sscan(f[2], &safi)
+		g := strings.Fields(f[3])
+		if len(g) == 1 {
+			g = append(g, "") // an empty NLRI field
+		}
+		if len(g) != 2 {
+			return "err fields"
+		}
+		body, _ := hex.DecodeString(g[1])
+		val := append([]byte{byte(afi >> 8), byte(afi), byte(safi)}, body...)
+		attr := append([]byte{0x90, 15, byte(len(val) >> 8), byte(len(val))}, val...)
+		fam := bgp.NewFamily(uint16(afi), uint8(safi))
+		opt := &bgp.MarshallingOption{}
+		if g[0] == "1" {
+			opt.AddPath = map[bgp.Family]bgp.BGPAddPathMode{fam: bgp.BGP_ADD_PATH_BOTH}
+		}
+		a, err := bgp.GetPathAttribute(attr)
+		if err == nil {
+			err = a.DecodeFromBytes(attr, opt)
+		}
+		if err != nil {
+			return "err"
+		}
+		var out []string
+		for _, n := range a.(*bgp.PathAttributeMpUnreachNLRI).Value {
+			d := strings.Fields(describeNLRI(n.NLRI))
+			if len(d) < 6 {
+				return "err describe"
+			}
+			out = append(out, fmt.Sprintf("%d:%s:%s:%s:%s", n.ID, d[1], d[2], d[3], d[4]))
+		}
+		return "ok " + strings.Join(out, " ")
 	case "nlriseeds":
 		// every NLRI inside the MP_REACH / MP_UNREACH attributes of the constructor-built seeds, serialised on its own
 		var out []string
